@@ -279,7 +279,7 @@ structure GoodSrv (s : Server) : Prop where
   cx : ∀ p ∈ s.cxes, GoodCx p.2
   plain : s.tls = false → s.cxes = []
 
-theorem newRem_good (sid : Nat) (p : Pending) : GoodCx (newRem true sid p) ∧ GoodRem (newRem false sid p) :=
+theorem newRem_good (sid : Nat) (p : Pending) (wl : Bool) : GoodCx (newRem true sid p wl) ∧ GoodRem (newRem false sid p wl) :=
   ⟨⟨rfl, rfl⟩, ⟨rfl, Or.inl rfl⟩⟩
 
 theorem acceptAll_good (ps : List Pending) : ∀ {s : Server}, GoodSrv s → GoodSrv (acceptAll s ps) := by
@@ -295,12 +295,12 @@ theorem acceptAll_good (ps : List Pending) : ∀ {s : Server}, GoodSrv s → Goo
       · rename_i ht
         refine ih ⟨h.listening, h.ix, ?_, fun hf => by simp [ht] at hf⟩
         rw [ht]
-        exact dictSet_all h.cx (newRem_good _ _).1
+        exact dictSet_all h.cx (newRem_good _ _ _).1
       · rename_i ht
         have ht' : s.tls = false := by simpa using ht
         refine ih ⟨h.listening, ?_, h.cx, h.plain⟩
         rw [ht']
-        exact dictSet_all h.ix (newRem_good _ _).2
+        exact dictSet_all h.ix (newRem_good _ _ _).2
 
 theorem acceptAll_tls (ps : List Pending) : ∀ (s : Server), (acceptAll s ps).tls = s.tls := by
   induction ps with
@@ -390,7 +390,7 @@ theorem dictDel_sub {t : Table} {ca : Nat} : ∀ p ∈ dictDel t ca, p ∈ t := 
       · exact Or.inr (ih p hp)
 
 def SOp.quiet : SOp → Bool
-  | .close | .reopen | .closeix _ | .closeall => false
+  | .close | .reopen | .reopenf | .closeix _ | .closeall => false
   | _ => true
 
 theorem step_good {s : Server} (hr : Gen.Tcp.recvLoopCatchesOSError = true)
@@ -412,8 +412,21 @@ theorem step_good {s : Server} (hr : Gen.Tcp.recvLoopCatchesOSError = true)
     · exact ⟨h.listening, fun p hp => h.ix p (dictDel_sub p hp), h.cx, h.plain⟩
   | close => cases hq
   | reopen => cases hq
+  | reopenf => cases hq
   | closeix ca => cases hq
   | closeall => cases hq
+  | wlopen =>
+    refine ⟨h.listening, ?_, ?_, ?_⟩
+    · intro p hp
+      simp only [Server.step, List.mem_map] at hp
+      obtain ⟨q, hq', rfl⟩ := hp
+      exact ⟨(h.ix q hq').1, (h.ix q hq').2⟩
+    · intro p hp
+      simp only [Server.step, List.mem_map] at hp
+      obtain ⟨q, hq', rfl⟩ := hp
+      exact ⟨(h.cx q hq').1, (h.cx q hq').2⟩
+    · intro ht
+      simp only [Server.step, h.plain ht, List.map_nil]
   | rxix ca =>
     simp only [Server.step]
     split
@@ -452,8 +465,9 @@ theorem run_good (hr : Gen.Tcp.recvLoopCatchesOSError = true) (hs : Gen.Tcp.send
     exact ih (fun o ho => hq o (by simp [ho])) (step_good hr hs op (hq op (by simp)) h)
 
 theorem start_good (tls : Bool) : GoodSrv (Server.start tls) :=
-  ⟨rfl, by simp [Server.start, Server.reopen, Server.close], by simp [Server.start, Server.reopen, Server.close],
-   fun _ => rfl⟩
+  ⟨rfl, by simp [Server.start, Server.reopen, Server.reclose, Server.close],
+   by simp [Server.start, Server.reopen, Server.reclose, Server.close], fun _ => by
+     simp [Server.start, Server.reopen, Server.reclose, Server.close]⟩
 
 /-! ### one connection object (client side): scripts whose faults are all classified never make a call raise -/
 
